@@ -874,6 +874,13 @@ def v2_deposit(ctx, la, sa, acls):
         mon.violation("gmx2", "deposit", "fee-factor", f"{side}/{sign}",
                       f"{ctx.label}: fees ({r.long_fee}, {r.short_fee}, usd {r.fee_usd}) vs model "
                       f"({_fl(exp['long_fee'])}, {_fl(exp['short_fee'])}, {_fl(exp['fee_usd'])}); {info}", info)
+    mon.ev()
+    want_total = F(float(la)) * st.long_price + F(float(sa)) * st.short_price
+    want_gm_usd = F(float(r.gm_amount)) * st.pool_value / st.supply
+    bad = [nm for nm, got, want in (("total_usd", r.total_usd, want_total), ("gm_usd", r.gm_usd, want_gm_usd)) if not close(got, want)]
+    if bad:
+        mon.violation("gmx2", "deposit", "reported-figures", "/".join(bad),
+                      f"{ctx.label}: result {r!r} vs value paid {_fl(want_total)}, gm value {_fl(want_gm_usd)}; {info}", info)
     # moves
     wa = ctx.wallet()
     ln, sn = m.long_token.name, m.short_token.name
@@ -925,6 +932,18 @@ def v2_withdraw(ctx, gm, portion):
     if not (close(r.long_fee, exp["long_fee"]) and close(r.short_fee, exp["short_fee"])):
         mon.violation("gmx2", "withdraw", "fee-factor", "withdraw",
                       f"{ctx.label}: fees ({r.long_fee}, {r.short_fee}) vs model ({_fl(exp['long_fee'])}, {_fl(exp['short_fee'])}); {info}", info)
+    # the figures the result reports about itself: value redeemed, value of the shares, fee in USD; a withdrawal has no price impact
+    mon.ev()
+    want_total = F(float(r.long_amount)) * st.long_price + F(float(r.short_amount)) * st.short_price
+    want_fee = F(float(r.long_fee)) * st.long_price + F(float(r.short_fee)) * st.short_price
+    want_gm_usd = F(amount) * st.pool_value / st.supply
+    bad = [nm for nm, got, want in (("total_usd", r.total_usd, want_total), ("fee_usd", r.fee_usd, want_fee), ("gm_usd", r.gm_usd, want_gm_usd))
+           if not close(got, want)]
+    if float(r.price_impact_usd) != 0:
+        bad.append("price_impact_usd")
+    if bad or not close(r.gm_amount, F(amount)):
+        mon.violation("gmx2", "withdraw", "reported-figures", "/".join(bad) or "gm_amount",
+                      f"{ctx.label}: result {r!r} vs total {_fl(want_total)}, fee {_fl(want_fee)}, gm value {_fl(want_gm_usd)}; {info}", info)
     wa = ctx.wallet()
     ln, sn = m.long_token.name, m.short_token.name
     for name in wb:
